@@ -8,6 +8,7 @@ import (
 	"context"
 	"errors"
 	"fmt"
+	"math"
 	"strings"
 
 	flyt "github.com/mark3labs/flyt"
@@ -239,6 +240,24 @@ func genC01(tier string) []Scenario {
 				sp := &spec{id: "n", kind: kind, n: n, fb: kind != kBareRetry}
 				name := fmt.Sprintf("lifecycle kind=%s N=%d fallback=%v place=%s (larger budgets)", kindNames[kind], n, sp.fb, placeName(placeDirect))
 				out = append(out, lifecycleScenario(name, sp, placeDirect, fullMenu(prepVals[:1])))
+			}
+		}
+	}
+	// HUGE budgets (the largest int, 2^20): legal settings; the attempts actually made are few (the
+	// third one always succeeds), nothing may depend on the size of the budget itself
+	for _, kind := range []int{kBase, kBaseFb, kFuncRB, kFuncA, kBareRetry} {
+		for _, n := range []int{math.MaxInt, 1 << 20} {
+			for place := 0; place < 3; place += 2 {
+				sp := &spec{id: "n", kind: kind, n: n, fb: kind == kBaseFb || kind == kFuncRB}
+				name := fmt.Sprintf("lifecycle kind=%s N=%d fallback=%v place=%s (huge budget, third attempt succeeds)", kindNames[kind], n, sp.fb, placeName(place))
+				full := fullMenu(prepVals[:1])
+				out = append(out, lifecycleScenario(name, sp, place, func(h *H, c call) []answer {
+					m := full(h, c)
+					if c.ph == pExec && c.attempt >= 2 {
+						return m[:1]
+					}
+					return m
+				}))
 			}
 		}
 	}
